@@ -195,3 +195,4 @@ fn remove_missing_cell_contract() {
     core::mem::forget(r);
     core::mem::forget(t);
 }
+
